@@ -41,9 +41,9 @@ func (c12) Assumptions() []string {
 }
 func (c12) NumCases(tier string, _ int64) int {
 	if tier == "thorough" {
-		return 20000
+		return 80000
 	}
-	return 1600
+	return 5000
 }
 func (c12) Exhaustive(string) bool { return false }
 func (c12) Floors(string) []runner.Floor {
